@@ -494,6 +494,8 @@ impl Check for C09 {
                 let mut p = ClientPlan::plain(wl[wi].clone());
                 p.cfg.max_tx = 2;
                 p.faults = vec![FaultSpec { conn: 0, point, kind }];
+                // in every other case the terminal reports its bookings in a currency of its own
+                p.pt.status_currency = if i % 2 == 1 { Some(826) } else { None };
                 p.label = format!("single/{:?}", kind);
                 p
             }));
